@@ -438,6 +438,22 @@ def check_relations(case, ctx):
                             f'constant image {c}: background in '
                             f'[{bk[sel].min()!r},{bk[sel].max()!r}], rms max '
                             f'{rm[sel].max()!r}', accel=ACCEL)
+        # the same numbers in non-native byte order (what astropy.io.fits
+        # returns) are still double precision
+        c_be = case.get('const32', 1000.1) * 1.0
+        try:
+            b_na = _bkg(np.full(d.shape, c_be), kwargs(case, mask, cov))
+            b_be = _bkg(np.full(d.shape, c_be).astype('>f8'), kwargs(case, mask, cov))
+        except ValueError:
+            return
+        for x_, y_ in zip(_maps(b_na)[:2], _maps(b_be)[:2]):
+            if not np.allclose(x_[sel], y_[sel], rtol=1e-12, atol=1e-12 * abs(c_be)):
+                raise Violation('constant_image',
+                                f'constant image {c_be!r} stored big-endian: '
+                                f'maps differ from the native-order result by '
+                                f'{np.abs(x_[sel] - y_[sel]).max():.3g}',
+                                accel=ACCEL)
+        ctx.event('constant_bigendian')
         # the same in single precision (values that do not sum exactly):
         # within float32 precision, with or without the accelerator
         c32 = np.float32(case.get('const32', 1000.1))
